@@ -24,10 +24,12 @@ Rejects == Invalid(q.abs) => R = Err("InvalidInput")
 \* exactness: the property predicate holds with the model's own resolution as the OS facts
 AsObs(r) == IF r.k = "gznode" THEN [k |-> "node", name |-> r.name, enc |-> "gzip", ce |-> "gzip",
                                      vary |-> IF q.auto THEN "accept-encoding" ELSE "", varies |-> q.auto,
-                                     dir |-> FALSE, ent_ok |-> TRUE, ent_len |-> 1, size |-> 1]
+                                     dir |-> FALSE, reg |-> r.name \notin Special, ent_ok |-> r.name \notin Special,
+                                     ent_len |-> 1, size |-> 1]
             ELSE IF r.k = "node" THEN [k |-> "node", name |-> r.name, enc |-> "", ce |-> "",
                                        vary |-> IF q.auto THEN "accept-encoding" ELSE "", varies |-> q.auto,
-                                       dir |-> r.name \in Dirs, ent_ok |-> r.name \notin Dirs, ent_len |-> 1, size |-> 1]
+                                       dir |-> r.name \in Dirs, reg |-> r.name \notin Dirs \cup Special,
+                                       ent_ok |-> r.name \notin Dirs \cup Special, ent_len |-> 1, size |-> 1]
             ELSE r
 OsFact(r) == IF r.k = "node" THEN [k |-> "node", name |-> r.name, dir |-> r.name \in Dirs] ELSE r
 Exact == ("C19" \in Enforce) =>
